@@ -827,6 +827,10 @@ pub fn generate(seed: u64, limits: &GenLimits, allowed: &Features) -> GenProblem
         // the matrices of a profile may be supplied in any order (they carry their timestamps)
         cx.p.shuffle(&mut matrices);
     }
+    if !f.time_dependent && matrices.len() >= 2 && cx.p.chance(0.3) {
+        // matrices carry the name of their profile: the order in which they are supplied need not be the order of fleet.profiles
+        matrices.reverse();
+    }
     GenProblem { problem, matrices, features: f }
 }
 
